@@ -105,6 +105,20 @@ def units(cps):
     return sum(2 if c >= 0x10000 else 1 for c in cps)
 
 
+def drop_empty_classes(groups, xm, swbits):
+    """F32: a class that subtraction leaves empty crashes the constructor outside schema mode; such expressions are
+    recognised with the parser model (token tree contains T_RANGE with no ranges) and taken out"""
+    import subprocess
+    idx = [i for i, g in enumerate(groups) if g.get("expr") is not None]
+    if not idx:
+        return groups, 0
+    lines = ["emptycls %s %s" % (swbits, hx(B.print_re(groups[i]["expr"]))) for i in idx]
+    p = subprocess.run([xm], input=("\n".join(lines) + "\n").encode(), stdout=subprocess.PIPE, timeout=300)
+    out = p.stdout.decode().splitlines()
+    bad = {i for i, o in zip(idx, out) if o != "ok 0"}
+    return [g for i, g in enumerate(groups) if i not in bad], len(bad)
+
+
 def gen(ctx):
     """returns a list of groups; a group = dict(kind, lines=[...], meta...) evaluated by `evaluate`"""
     rng = ctx.rng
@@ -184,7 +198,9 @@ def requests_for(g, rng, others):
     L.append(("b", "xp b %s %s %s" % (o, P, S)))
     L.append(("i", "xp i %s %s %s" % (o, P, S)))
     # reused Match across several expressions (different group counts) and subjects
-    pats = [g["pat"]] + [x["pat"] for x in others]
+    def has_sub(p):
+        return any(p[j] == 45 and p[j + 1] == 91 for j in range(len(p) - 1))
+    pats = [g["pat"]] + [x["pat"] for x in others if not ("i" in g["opts"] and has_sub(x["pat"]))]
     L.append(("r", "xp r %s %s %s" % (o, ",".join(hx(p) for p in pats), S)))
     L.append(("fseq", "xp f %s %s %s" % (o, ",".join(hx(p) for p in pats), S)))
     # windows
